@@ -319,7 +319,7 @@ func c15EcoUnit(name string, tier string) core.Unit {
 			r.Add("swap_sensitive_ecosystems", 1)
 		}
 		// unknown commands and missing command
-		for _, cmd := range []string{"Compare", "", "version", "SORT", "help", "--help", "compare "} {
+		for _, cmd := range []string{"Compare", "", "version", "SORT", "help", "--help", "compare ", "so", "sor", "comp", "compar", "cont", "contain", "c", "s", "sorts", "compare2"} {
 			for _, args := range [][]string{{}, {pool[0]}, {pool[0], pool[1]}} {
 				argv := append([]string{name, cmd}, args...)
 				r.Add("states", 1)
